@@ -15,6 +15,7 @@ import CSD.Lemmas.PFCMeta
 import CSD.Lemmas.RPDACPrefix4
 import CSD.Lemmas.PFCPrefixD
 import CSD.Lemmas.FM11
+import CSD.Lemmas.RPFC9
 
 namespace CSD.Props.C04
 open CSD
@@ -130,10 +131,21 @@ theorem fm_models_match_source_text :
   ⟨rfl, rfl, rfl, rfl, rfl, rfl, rfl, rfl, rfl, rfl, rfl, rfl⟩
 
 
-/-- The RPFC prefix search (`locateBoundaryBuckets`, `searchPrefix`, `searchDistinctPrefix`, `locatePrefix`) is
-modelled exactly (`CSD/Model/RPFC.lean`) and run by the driver on every exported RPFC object against the
-code's ranges and `Spec.prefixIds` (`rpfc-layer`); only its decoding step is proved
-(`RPFC.decodeString_spec`). -/
+/-! ### RPFC -/
+
+/-- `StringDictionaryRPFC::locatePrefix` is exact over any grammar and symbol streams that store the dictionary
+(`RPFC.Stores`, checked on every exported object): `(0, 0)` when no member starts with the pattern, otherwise
+the ID range `[lo, hi]` with member `i` (0-based) starting with the pattern iff `lo ≤ i + 1 ≤ hi`. Proved by
+running `locateBoundaryBuckets`, `searchPrefix` and `searchDistinctPrefix` of RPFC in lockstep with those of
+the plain front-coded dictionary built from the same strings (`RPFC.locatePrefix_sim`): both read the same
+plain headers, and every `decodeString` step yields what the plain decoder yields. -/
+theorem rpfc_prefix_search_exact {S : List Str} {d : RPFC.D} (hst : RPFC.Stores S d) (hv : validDict S = true)
+    (q : Str) (hq : PFC.nulFree q) :
+    ∃ lo hi, RPFC.locatePrefix d q = some (lo, hi) ∧ PFC.PrefixChar S q lo hi := by
+  obtain ⟨hne, hn, hs, _⟩ := PFC.validDict_facts hv
+  exact RPFC.locatePrefix_stores hst hne hn hs q hq
+
+/-- The RPFC prefix-search model was written against the current text of the C++ functions it mirrors. -/
 theorem rpfc_prefix_models_match_source_text :
     Generated.body_RPFC_decodeString = SourceText.body_RPFC_decodeString ∧
     Generated.body_RPFC_locatePrefix = SourceText.body_RPFC_locatePrefix ∧
